@@ -6,7 +6,7 @@ import spec
 from spec import hex_of
 
 OBLIGATION_MODULES = ["PyModeS.Properties.C03"]
-TIE_MODULES = ['PyModeS.Tie.Cpr', 'PyModeS.Tie.CprGlobal', 'PyModeS.Tie.Adsb']
+TIE_MODULES = ['PyModeS.Tie.Cpr', 'PyModeS.Tie.CprGlobal', 'PyModeS.Tie.Adsb', 'PyModeS.Tie.C03Gen']
 MAIN_THEOREM = "PyModeS.C03.global_lat / global_lon / none_iff_NL_differs / same_parity_runtimeError"
 RULE = ("positions: every NL transition +-{0,1,2} latitude bins both hemispheres, poles, equator, lon 0/+-90/+-180, zone edges, the 87 band, "
         "random; x displacements <= 1 NM in 8 directions x both time orders x both argument orders x TC 9-18/20-22; "
